@@ -110,6 +110,24 @@ theorem foldl_set_length (l : Val) : ∀ (idx : List Int) (acc : List Val),
     rw [foldl_set_length l rest]
     split_ifs <;> simp
 
+/-- with every index inside the list the assignments cannot raise: the loop is the fold -/
+theorem foldlM_setNewID_ok (l : Val) : ∀ (idx : List Int) (acc : List Val), (∀ i ∈ idx, 0 ≤ i ∧ i < (acc.length : Int)) →
+    idx.foldlM (fun acc ind => setNewID acc ind l) acc =
+      .ok (idx.foldl (fun acc ind => if ind < 0 then acc else acc.set ind.toNat l) acc)
+  | [], acc, _ => rfl
+  | i :: rest, acc, h => by
+    have hi := h i (by simp)
+    have h1 : ¬ i < 0 := by omega
+    have h3 : ¬ (i ≥ (acc.length : Int)) := by omega
+    have hset : setNewID acc i l = .ok (acc.set i.toNat l) := by
+      unfold setNewID
+      simp only [h1, h3, if_false, or_self]
+    rw [List.foldlM_cons, hset]
+    simp only [List.foldl_cons, h1, if_false]
+    exact foldlM_setNewID_ok l rest _ (fun j hj => by
+      have := h j (by simp [hj])
+      simpa using this)
+
 theorem mem_chain_positions (T : Table) (chain : Py.Str) (p : Nat) :
     (p : Int) ∈ (T.zipIdx.filter (fun rp => rp.1.atom.chainID == chain)).map (fun rp => (rp.2 : Int)) ↔
       ∃ r, T[p]? = some r ∧ r.atom.chainID = chain := by
@@ -142,7 +160,14 @@ theorem fillNewID_spec (db : Db) (hwf : WF db) (tab : Tab) (htab : findTab db de
     have hl' : acc'.length = tab.rows.length := by rw [foldl_set_length]; exact hl
     obtain ⟨res, h1, h2, h3⟩ := fillNewID_spec db hwf tab htab hnm rest acc' hnd.2 hl'
     refine ⟨res, ?_, h2, ?_⟩
-    · simp only [fillNewID, hget]
+    · have hin : ∀ i ∈ (tab.rows.zipIdx.filter (fun rp => rp.1.atom.chainID == chain)).map (fun rp => (rp.2 : Int)),
+          0 ≤ i ∧ i < (acc.length : Int) := by
+        intro i hi
+        simp only [List.mem_map, List.mem_filter] at hi
+        obtain ⟨rp, ⟨hmem, _⟩, rfl⟩ := hi
+        have := (List.mem_zipIdx' (x := rp.1) (i := rp.2) hmem).1
+        omega
+      simp only [fillNewID, hget, foldlM_setNewID_ok _ _ _ hin]
       exact h1
     · intro p hp
       rw [h3 p hp]
